@@ -1453,6 +1453,23 @@ fn suffix_set(rng: &mut Rng) -> Vec<Vec<u8>> {
     v.push(vec![0xD3; 7]);
     v.push(vec![0xFF; 9]);
     v.push(vec![0x00; 5]);
+    // what real links put between frames: line ends, other protocols' sync bytes, text -- alone, followed by a
+    // preamble byte and followed by a whole frame
+    const DELIMITERS: [&[u8]; 14] = [b"\r\n", b"\n", b"\r", b"\r\n\r\n", b"\n\r", b"$GPGGA,", b"*5C\r\n", &[0xB5, 0x62], &[0x24, 0x40], &[0x02], &[0x03], &[0x10, 0x03], &[0x7E], b"ICY 200 OK\r\n"];
+    let d = *rng.pick(&DELIMITERS);
+    v.push(d.to_vec());
+    let mut w = d.to_vec();
+    w.push(0xD3);
+    v.push(w);
+    let mut w = d.to_vec();
+    let pl = rng.usize_below(12);
+    let p = rng.bytes(pl);
+    w.extend(crc::frame(&p));
+    v.push(w);
+    // short suffixes drawn from the bytes protocols treat specially
+    const SPECIAL: [u8; 12] = [0x0D, 0x0A, 0x00, 0xFF, 0xD3, 0x24, 0x2A, 0x7E, 0x02, 0x03, 0x10, 0x1A];
+    let k = rng.range(1, 3) as usize;
+    v.push((0..k).map(|_| *rng.pick(&SPECIAL)).collect());
     v
 }
 
@@ -1508,7 +1525,7 @@ pub fn c13(p: &Params) -> Outcome {
     }
     Outcome {
         ctx: total,
-        rule: "every L in 0..=1023 and frames of every message type x suffixes {1 byte, 2 bytes, 3..2000 random, another frame, 0xD3.., 0xFF.., zeros}; oracle = all accessors and the decoded message equal those of the frame alone, number = first 12 payload bits iff L >= 2; non-trivial = non-empty suffix; distinct by (frame, suffix) hash".into(),
+        rule: "every L in 0..=1023 and frames of every message type x suffixes {1 byte, 2 bytes, 3..2000 random, another frame, 0xD3.., 0xFF.., zeros, line ends / foreign sync bytes / text alone, before a preamble byte and before a frame, 1..3 special bytes}; oracle = all accessors and the decoded message equal those of the frame alone, number = first 12 payload bits iff L >= 2; non-trivial = non-empty suffix; distinct by (frame, suffix) hash".into(),
         exhaustive: false,
         extra: json!({}),
     }
